@@ -64,6 +64,13 @@ impl HetTable {
         compressed_size: u64,
         key: u32,
     ) -> Result<Self> {
+        // The table cannot be larger than what is left of the file
+        let file_end = reader.seek(SeekFrom::End(0))?;
+        if compressed_size > file_end.saturating_sub(offset) {
+            return Err(Error::invalid_format(
+                "Table size exceeds the remaining file",
+            ));
+        }
         reader.seek(SeekFrom::Start(offset))?;
 
         // Read the compressed/encrypted data
